@@ -166,6 +166,9 @@ def run_launch(params, order):
                             sim.conf_types.update({'SocksPort': 'Dependent', '__SocksPort': 'Dependent', 'ControlPort': 'LineList'})
                             sim.info['config/defaults'] = []
                             sim.hold_prefixes = ['GETINFO signal/names']
+                            if params['own'] == 'reject-reset':
+                                # whenever it is sent, Tor refuses the RESETCONF (it does not know the option)
+                                sim.override('RESETCONF', (552, [('line', 'Unrecognized option: Unknown option \'__OwningControllerProcess\'')]))
                             conn['d'].callback(proto)
                         else:
                             conn['d'].errback(failure.Failure(error.ConnectionRefusedError('refused')))
@@ -242,7 +245,7 @@ def run_launch(params, order):
                 viol.append(('launch-failed-although-bootstrapped', state['fired_at'] or '?', '%r -> %r' % (log, rec.summary())))
             if state['ended']:
                 if params['datadir'] == 'temp' and not state['dir_gone_after_end']:
-                    viol.append(('tempdir-not-removed', params['exit'], 'the temporary data directory %s still exists after processEnded' % datadir))
+                    viol.append(('tempdir-not-removed', params['exit'], 'the temporary data directory (tortmp*) still exists after processEnded; order %r' % (log,)))
             if params['datadir'] == 'user':
                 if not os.path.exists(os.path.join(user_dir, 'keepme')):
                     viol.append(('user-directory-removed', 'pre-existing', 'the caller-supplied data directory was removed (%r)' % (log,)))
@@ -269,6 +272,7 @@ def param_sets(tier):
     base = dict(ostyle='whole', connect='ok', own='ack', exit='code1', datadir='temp', kill_on_stderr=False)
     out.append(dict(base))
     out.append(dict(base, own='reject'))
+    out.append(dict(base, own='reject-reset'))
     out.append(dict(base, exit='signal', datadir='user'))
     out.append(dict(base, exit='code0', kill_on_stderr=True))
     out.append(dict(base, connect='refused'))
